@@ -160,7 +160,7 @@ def gen_program(r, maxsteps=9, maxh=6, read_bias=0.2, assign_bias=0.2):
                 g = r.choice(live)
                 st = ["ufunc", "subtract", ["h", h], ["h", g]]
         else:
-            name = r.choice(["cumsum", "sort", "diff", "concat", "concat", "astype", "sum", "max", "argmax", "argmin", "mean", "min", "unique_obs", "unique_obs", "nonzero_obs", "nonzero_obs", "colsum_obs", "pad_obs"])   # no value-dependent shapes (unique): see RaggedHeap.tla
+            name = r.choice(["cumsum", "sort", "diff", "concat", "concat", "concat1", "astype", "sum", "max", "argmax", "argmin", "mean", "min", "unique_obs", "unique_obs", "nonzero_obs", "nonzero_obs", "colsum_obs", "pad_obs"])   # no value-dependent shapes (unique): see RaggedHeap.tla
             if name == "concat":
                 g = r.choice(live)
                 ax = r.choice([0, 0, -1])
